@@ -84,7 +84,17 @@ func genC05(seed uint64, withSpec bool) *Scenario {
 		sc.Pool.Mode = rt.PoolLIFO
 	}
 	coeRun := r.Chance(300) // runs exercising the package-level option setter
-	deepPair := withSpec && r.Chance(350)
+	deepPair := withSpec && r.Chance(450)
+	nspecTasks := 2
+	if deepPair {
+		// several whole-spec validations of deeply nested documents in near lockstep: their walkers overlap
+		nspecTasks = r.Range(3, 4)
+		if ntasks < nspecTasks+1 {
+			ntasks = nspecTasks + 1
+		}
+		sc.Sched.Kind = pick(r, []int{rt.SchedRoundRobin, rt.SchedRoundRobin, rt.SchedRandom})
+		sc.Sched.SwitchPM = 500
+	}
 	uid := uint32(0)
 	bp := func(b bool) *bool { return &b }
 	// swarm knob: more distinct patterns than any plausible bound of the regexp cache (eviction paths of a bounded cache)
@@ -104,7 +114,7 @@ func genC05(seed uint64, withSpec bool) *Scenario {
 		if big {
 			nops = 1
 		}
-		specTask := withSpec && t < 2
+		specTask := withSpec && t < nspecTasks
 		if specTask {
 			nops = 1
 		}
@@ -338,7 +348,7 @@ func init() {
 	register(&Prop{
 		ID: "C05", Level: "exploration", Race: true,
 		Gen: func(seed uint64, tier string, idx int) *Scenario {
-			withSpec := idx%167 == 5
+			withSpec := idx%97 == 5
 			if tier == "thorough" {
 				withSpec = idx%29 == 5
 			}
